@@ -67,6 +67,9 @@ InitState(p) ==
    \* async: hand-written waker slots, JoinHandle slots, abort / detach marks
    flg |-> [f \in 1..P.nflags |-> FALSE], fw |-> [f \in 1..P.nflags |-> -1],
    inpoll |-> <<FALSE>>, det |-> <<FALSE>>, ab |-> <<FALSE>>, canc |-> <<FALSE>>, hasres |-> <<FALSE>>, resv |-> <<0>>, jw |-> <<-1>>, fut |-> <<FALSE>>, jtaken |-> <<FALSE>>,
+   \* futures sleeping in an awaited unfair acquire that a barging acquirer re-blocked (TaskState::Blocked: waker wakes
+   \* no longer make them runnable); future tasks whose waker was invoked since their latest poll began
+   hard |-> {}, due |-> {},
    obs |-> [c \in 1..Len(P.tasks) |-> <<>>]]
 
 -----------------------------------------------------------------------------
@@ -75,12 +78,24 @@ InitState(p) ==
 Ph(s, t) == s.ph[t+1]
 SetPh(s, t, p) == [s EXCEPT !.ph[t+1] = p]
 \* a waker invocation: remember it (the flag is consumed by the task's next Pending)
-AsyncWait == {"fwait", "jwait"}
-Wake(s, t) == IF s.fin[t+1] THEN s
-              ELSE IF s.ph[t+1] \in AsyncWait THEN [s EXCEPT !.wk[t+1] = TrackWoken, !.xr[t+1] = TRUE]
+AsyncWait == {"fwait", "jwait", "susp"}
+\* a future whose awaited acquire returned Pending sleeps like in any other await: a wake buys it a (fruitless) poll
+SleepsInAcquire(s, t) == s.fut[t+1] /\ s.ph[t+1] = "wait" /\ NextOp(s, t).k = "acquire"
+\* every blocking lock / acquire is block_on(Acquire): the task sleeps (TaskState::Sleeping) with its own waker registered,
+\* so any wake of that waker buys it a poll of the Acquire -- until a barging acquirer re-blocks it (TaskState::Blocked)
+SleepsOnSem(s, t) == \/ (s.ph[t+1] = "wait" /\ NextOp(s, t).k \in {"lock", "read", "write", "acquire"})
+                     \/ (s.ph[t+1] = "relockwait" /\ NextOp(s, t).k = "cv_wait")
+                     \/ s.ph[t+1] = "once_wait"
+WakeRaw(s, t) == IF s.fin[t+1] THEN s
+              ELSE IF SleepsOnSem(s, t) /\ t \in s.hard
+                   THEN [s EXCEPT !.wk[t+1] = TrackWoken]
+              ELSE IF s.ph[t+1] \in AsyncWait \/ SleepsOnSem(s, t) THEN [s EXCEPT !.wk[t+1] = TrackWoken, !.xr[t+1] = TRUE]
               ELSE IF TrackWoken THEN [s EXCEPT !.wk[t+1] = TRUE] ELSE s
+Wake(s, t) == LET r == WakeRaw(s, t) IN IF s.fut[t+1] /\ ~s.fin[t+1] THEN [r EXCEPT !.due = @ \cup {t}] ELSE r
 WakeAll(s, T) == [s EXCEPT !.wk = [i \in DOMAIN s.wk |-> IF TrackWoken /\ (i-1) \in T /\ ~s.fin[i] THEN TRUE ELSE s.wk[i]]]
 ClearXr(s, T) == [s EXCEPT !.xr = [i \in DOMAIN s.xr |-> IF (i-1) \in T THEN FALSE ELSE s.xr[i]]]
+Unhard(s, T) == [s EXCEPT !.hard = @ \ T]
+Harden(s, T) == [s EXCEPT !.hard = @ \cup T]
 \* entering a poll-protocol wait: a stale wake credit buys one extra runnable round
 EnterPollWait(s, t, p) ==
   IF TrackWoken /\ s.wk[t+1] THEN [s EXCEPT !.ph[t+1] = p, !.wk[t+1] = FALSE, !.xr[t+1] = TRUE]
@@ -96,16 +111,16 @@ MFree(s, m) == s.mh[m+1] = -1
 MutexWaiters(s, m) ==
   {t \in Live(s) : \/ (Ph(s, t) = "wait" /\ NextOp(s, t).k = "lock" /\ NextOp(s, t).o = m)
                    \/ (Ph(s, t) = "relockwait" /\ NextOp(s, t).k = "cv_wait" /\ NextOp(s, t).v = m)}
-MAcquire(s, t, m) == ClearXr([s EXCEPT !.mh[m+1] = t], MutexWaiters(s, m) \ {t})
-MRelease(s, m) == WakeAll([s EXCEPT !.mh[m+1] = -1], MutexWaiters(s, m))
+MAcquire(s, t, m) == Harden(ClearXr([s EXCEPT !.mh[m+1] = t], MutexWaiters(s, m) \ {t}), MutexWaiters(s, m) \ {t})
+MRelease(s, m) == Unhard(WakeAll([s EXCEPT !.mh[m+1] = -1], MutexWaiters(s, m)), MutexWaiters(s, m))
 
 (* RwLock *)
 RFits(s, r) == s.rw[r+1].writer = -1
 WFits(s, r) == s.rw[r+1].writer = -1 /\ s.rw[r+1].readers = {}
 RwWaiters(s, r) == {t \in Live(s) : Ph(s, t) = "wait" /\ NextOp(s, t).k \in {"read", "write"} /\ NextOp(s, t).o = r}
 RwFits(s, t) == IF NextOp(s, t).k = "read" THEN RFits(s, NextOp(s, t).o) ELSE WFits(s, NextOp(s, t).o)
-RwAfterAcquire(s, t, r) == ClearXr(s, {w \in RwWaiters(s, r) \ {t} : ~RwFits(s, w)})
-RwAfterRelease(s, r) == WakeAll(s, {w \in RwWaiters(s, r) : RwFits(s, w)})
+RwAfterAcquire(s, t, r) == LET W == {w \in RwWaiters(s, r) \ {t} : ~RwFits(s, w)} IN Harden(ClearXr(s, W), W)
+RwAfterRelease(s, r) == LET W == {w \in RwWaiters(s, r) : RwFits(s, w)} IN Unhard(WakeAll(s, W), W)
 
 (* Condvar: signal tokens (deferred choice), oldest token consumed first *)
 CvEntry(s, c, t) == LET L == s.cv[c+1].list IN L[CHOOSE i \in 1..Len(L) : L[i].t = t]
@@ -139,12 +154,14 @@ GrantFront(sm) ==
   ELSE sm
 SemAfterAcquire(s, t, x) ==   \* unfair: waiters that no longer fit lose their extra round
   IF s.sem[x+1].fair THEN s
-  ELSE ClearXr(s, {w \in SemWaiters(s, x) \ {t} : SemReq(s, x, w) > s.sem[x+1].avail})
+  ELSE LET W == {w \in SemWaiters(s, x) \ {t} : SemReq(s, x, w) > s.sem[x+1].avail} IN
+       Harden(ClearXr(s, W), W)
 SemRelease(s, x, n) ==
   LET sm0 == [s.sem[x+1] EXCEPT !.avail = @ + n] IN
   IF sm0.fair
   THEN LET sm1 == GrantFront(sm0) IN WakeAll([s EXCEPT !.sem[x+1] = sm1], sm1.granted \ sm0.granted)
-  ELSE WakeAll([s EXCEPT !.sem[x+1] = sm0], {w \in SemWaiters(s, x) : SemReq(s, x, w) <= sm0.avail})
+  ELSE LET W == {w \in SemWaiters(s, x) : SemReq(s, x, w) <= sm0.avail} IN
+       Unhard(WakeAll([s EXCEPT !.sem[x+1] = sm0], W), W)
 
 (* Once: the race is decided on an internal mutex (owner); completion is recorded before it is released.
    The same protocol runs for `static` Once cells and under the first access to a lazy static. *)
@@ -154,8 +171,9 @@ OIdx(s, t) == LET o == NextOp(s, t) IN
               IF o.k = "sonce" \/ o.k = "sonce_done" THEN Prog(s).nonce + o.o
               ELSE IF o.k \in LazyOps THEN Prog(s).nonce + 2 + o.o ELSE o.o
 OnceWaiters(s, x) == {t \in Live(s) : Ph(s, t) = "once_wait" /\ OIdx(s, t) = x}
-OnceAcquire(s, t, x) == ClearXr([s EXCEPT !.ph[t+1] = "once_in", !.once[x+1].owner = t, !.xr[t+1] = FALSE], OnceWaiters(s, x) \ {t})
-OnceRelease(s, x) == WakeAll([s EXCEPT !.once[x+1].owner = -1], OnceWaiters(s, x))
+OnceAcquire(s, t, x) == Harden(ClearXr([Unhard(s, {t}) EXCEPT !.ph[t+1] = "once_in", !.once[x+1].owner = t, !.xr[t+1] = FALSE], OnceWaiters(s, x) \ {t}),
+                               OnceWaiters(s, x) \ {t})
+OnceRelease(s, x) == Unhard(WakeAll([s EXCEPT !.once[x+1].owner = -1], OnceWaiters(s, x)), OnceWaiters(s, x))
 
 (* Thread-locals: per task, slots in initialisation order; `live` slots are destructed in that order at
    thread exit; a destructed slot stays behind as a tombstone (access = error, never re-initialised) *)
@@ -175,7 +193,7 @@ TlsKill(s, t) ==      \* the first live slot is destructed
 AtPollBoundary(s, t) ==
   /\ s.fut[t+1] /\ ~s.inpoll[t+1]
   /\ \/ (Ph(s, t) = "ready" /\ s.pc[t+1] = 1)
-     \/ Ph(s, t) \in {"ypend", "fwait", "jwait"}
+     \/ Ph(s, t) \in {"ypend", "fwait", "jwait", "susp"}
      \/ (Ph(s, t) = "wait" /\ NextOp(s, t).k = "acquire")
 MustCancel(s, t) == s.ab[t+1] /\ ~s.canc[t+1] /\ AtPollBoundary(s, t)
 \* the first poll of a spawned future begins (an abort arriving later in this poll takes effect at the next one)
@@ -204,6 +222,7 @@ CanComplete(s, t) ==
   /\ ~MustCancel(s, t)       \* an aborted future is dropped at its next poll: it performs no further step
   /\ CASE o.k = "lock" -> p \in {"ready", "wait"} /\ MFree(s, o.o)
        [] o.k = "ayield" -> p = "ypend"
+       [] o.k = "suspend" -> p = "susp" /\ s.xr[t+1]
        [] o.k = "await_flag" -> p \in {"ready", "fpoll"} /\ s.flg[o.o+1]
        [] o.k = "await_join" -> s.hasres[ChildId(s, o.v) + 1] \/ s.jtaken[ChildId(s, o.v) + 1]
        [] o.k = "join" -> HasChild(s, o.v) /\ s.fin[ChildId(s, o.v) + 1]
@@ -233,7 +252,8 @@ CanComplete(s, t) ==
 Complete(s, t) ==
   LET o == NextOp(s, t)
       p == Ph(s, t)
-      base == [s EXCEPT !.pc[t+1] = @ + 1, !.ph[t+1] = "ready", !.ind[t+1] = 0, !.xr[t+1] = FALSE,
+      base == [Unhard(s, {t}) EXCEPT !.pc[t+1] = @ + 1, !.ph[t+1] = "ready", !.ind[t+1] = 0, !.xr[t+1] = FALSE,
+                        !.due = IF s.inpoll[t+1] THEN @ ELSE @ \ {t},     \* this step opens a new poll
                         !.inpoll[t+1] = s.fut[t+1]]     \* a future task that completes a step is inside a poll
       R(r, s2) == [r |-> r, s |-> [s2 EXCEPT !.acc[t+1] = r]]
   IN
@@ -266,6 +286,9 @@ Complete(s, t) ==
     [] o.k = "set_flag" ->
          LET b2 == [base EXCEPT !.flg[o.o+1] = TRUE, !.fw[o.o+1] = -1] IN
          R(0, IF s.fw[o.o+1] # -1 THEN Wake(b2, s.fw[o.o+1]) ELSE b2)
+    \* poll_fn(|cx| { slot = cx.waker().clone(); Ready }): hand out the task's waker without waiting
+    [] o.k = "reg_flag" -> R(0, [base EXCEPT !.fw[o.o+1] = t])
+    [] o.k = "suspend" -> R(0, base)
     [] o.k = "wake_only" -> IF s.fw[o.o+1] # -1 THEN R(1, Wake(base, s.fw[o.o+1])) ELSE R(0, base)
     [] o.k = "abort" ->
          LET u == ChildId(s, o.v) IN
@@ -392,7 +415,7 @@ Complete(s, t) ==
               THEN IF t \in sm.granted THEN R(0, [base EXCEPT !.sem[o.o+1].granted = @ \ {t}])
                    ELSE R(-1, base)
               ELSE IF sm.closed THEN R(-1, base)
-                   ELSE R(0, SemAfterAcquire([base EXCEPT !.sem[o.o+1].avail = @ - o.v,
+                   ELSE R(0, SemAfterAcquire([Unhard(base, {t}) EXCEPT !.sem[o.o+1].avail = @ - o.v,
                                                           !.sem[o.o+1].q = SelectSeq(@, LAMBDA w : w.t # t)], t, o.o))
          ELSE IF sm.closed THEN R(-1, base)
               ELSE R(0, SemAfterAcquire([base EXCEPT !.sem[o.o+1].avail = @ - o.v], t, o.o))
@@ -405,7 +428,7 @@ Complete(s, t) ==
     [] o.k = "release" -> R(0, IF o.v = 0 THEN base ELSE SemRelease(base, o.o, o.v))
     [] o.k = "close" ->
          R(0, IF s.sem[o.o+1].closed THEN base
-              ELSE WakeAll([base EXCEPT !.sem[o.o+1].closed = TRUE, !.sem[o.o+1].q = <<>>], SemWaiters(s, o.o)))
+              ELSE Unhard(WakeAll([base EXCEPT !.sem[o.o+1].closed = TRUE, !.sem[o.o+1].q = <<>>], SemWaiters(s, o.o)), SemWaiters(s, o.o)))
     [] o.k = "avail" -> R(s.sem[o.o+1].avail, base)
     [] o.k = "is_closed" -> R(IF s.sem[o.o+1].closed THEN 1 ELSE 0, base)
 
@@ -413,7 +436,7 @@ Complete(s, t) ==
 (* Unlogged internal progress of t inside its next operation *)
 
 \* phases in which the task is suspended (a scheduling decision follows)
-Terminal(p) == p \in {"wait", "cvwait", "parked", "relockwait", "once_wait", "ypend", "fwait", "fpoll", "jwait"}
+Terminal(p) == p \in {"wait", "cvwait", "parked", "relockwait", "once_wait", "ypend", "fwait", "fpoll", "jwait", "susp"}
 \* the future is dropped: it leaves every queue, its result is Cancelled, only its destructors remain
 Cancel(s, t) ==
   LET o == NextOp(s, t)
@@ -428,7 +451,7 @@ Cancel(s, t) ==
             ELSE s
       \* a JoinHandle the future was awaiting is dropped with it: that detaches the awaited task
       s2 == IF Ph(s, t) = "jwait" /\ o.k = "await_join" THEN [s1 EXCEPT !.det[ChildId(s, o.v) + 1] = TRUE] ELSE s1
-  IN [s2 EXCEPT !.canc[t+1] = TRUE, !.pc[t+1] = Len(Code(s, t)) + 2, !.ph[t+1] = "ready", !.xr[t+1] = FALSE,
+  IN [Unhard(s2, {t}) EXCEPT !.canc[t+1] = TRUE, !.pc[t+1] = Len(Code(s, t)) + 2, !.ph[t+1] = "ready", !.xr[t+1] = FALSE,
                 !.retv[t+1] = -8]
 
 CanBlock(s, t) ==
@@ -439,6 +462,7 @@ CanBlock(s, t) ==
      CASE p = "ready" ->
             (CASE o.k = "cv_wait" -> TRUE
                [] o.k = "ayield" -> TRUE
+               [] o.k = "suspend" -> TRUE
                [] o.k = "await_flag" -> ~s.flg[o.o+1]
                [] o.k = "await_join" -> ~s.hasres[ChildId(s, o.v) + 1] /\ ~s.jtaken[ChildId(s, o.v) + 1]
                [] o.k = "park" -> ~s.tok[t+1]
@@ -467,6 +491,8 @@ BlockRaw(s, t) ==
            \* yield_now().await: wake self, request a yield, Pending (the wake is consumed at once)
            [] o.k = "ayield" -> [s EXCEPT !.ph[t+1] = "ypend", !.wk[t+1] = FALSE]
            [] o.k = "await_flag" -> EnterPollWait([s EXCEPT !.fw[o.o+1] = t], t, "fwait")
+           \* a future that returns Pending once without registering anything: it relies on wakers handed out earlier
+           [] o.k = "suspend" -> EnterPollWait(s, t, "susp")
            [] o.k = "await_join" -> EnterPollWait([s EXCEPT !.jw[ChildId(s, o.v) + 1] = t], t, "jwait")
            [] o.k = "cv_wait" ->    \* release the mutex (the guard is consumed), enqueue as a waiter
                 MRelease([s EXCEPT !.ph[t+1] = "cvwait", !.gd[t+1][o.w+1] = NoGuard,
@@ -501,11 +527,12 @@ BlockRaw(s, t) ==
     [] p \in {"once_skip", "once_fin"} -> SetPh(OnceRelease(s, OIdx(s, t)), t, "lz_go")
 
 \* Pending ends the poll; any other internal step of a future task happens inside one
-PendingPhase(p) == p \in {"ypend", "fwait", "jwait"} \/ p = "wait"
+PendingPhase(p) == p \in {"ypend", "fwait", "jwait", "susp"} \/ p = "wait"
 Block(s, t) ==
   LET r == BlockRaw(s, t) IN
   IF s.fut[t+1] /\ ~r.fin[t+1]
-  THEN [r EXCEPT !.inpoll[t+1] = ~(PendingPhase(r.ph[t+1]) /\ (r.ph[t+1] # "wait" \/ NextOp(r, t).k = "acquire"))]
+  THEN LET inp == ~(PendingPhase(r.ph[t+1]) /\ (r.ph[t+1] # "wait" \/ NextOp(r, t).k = "acquire")) IN
+       [r EXCEPT !.inpoll[t+1] = inp, !.due = IF ~s.inpoll[t+1] /\ inp THEN @ \ {t} ELSE @]
   ELSE r
 
 -----------------------------------------------------------------------------
@@ -516,7 +543,7 @@ Progress(s, t) ==
   CASE p = "ready" -> TRUE
     [] p = "wait" -> CanComplete(s, t) \/ (o.k \in {"lock", "read", "write", "acquire"} /\ s.xr[t+1]) \/ MustCancelWake(s, t)
     [] p \in {"ypend", "fpoll"} -> TRUE
-    [] p \in {"fwait", "jwait"} -> s.xr[t+1] \/ (p = "jwait" /\ CanComplete(s, t))
+    [] p \in {"fwait", "jwait", "susp"} -> s.xr[t+1] \/ (p = "jwait" /\ CanComplete(s, t))
     [] p = "cvwait" -> HasSignal(s, o.o, t)
     [] p = "relock" -> TRUE
     [] p = "relockwait" -> MFree(s, o.v) \/ s.xr[t+1]
@@ -564,6 +591,9 @@ BarrierBound(s) == \A b \in 1..Len(s.bar) : Cardinality(s.bar[b].arrived) < Max(
 \* no execution performs more than n steps
 StepBoundInv(s) == StepsUsed(s) <= BoundN(s)
 
+\* every waker wake is honoured: a future whose waker was invoked during or after its latest poll is offered for another one
+NoLostWake(s) == \A t \in s.due : (s.fut[t+1] /\ ~s.fin[t+1] /\ ~s.inpoll[t+1]) => Progress(s, t)
+
 StateInv(s) == /\ MutexExclusion(s) /\ RwExclusion(s) /\ ChanCapacity(s) /\ SemNonNegative(s)
                /\ FairHeadNeverFits(s) /\ BarrierBound(s)
 \* the same, as a list of names of violated invariants (trace validation reports and goes on)
@@ -574,4 +604,5 @@ Violated(s) == (IF MutexExclusion(s) THEN {} ELSE {"MutexExclusion"})
           \cup (IF FairHeadNeverFits(s) THEN {} ELSE {"FairHeadNeverFits"})
           \cup (IF BarrierBound(s) THEN {} ELSE {"BarrierBound"})
           \cup (IF StepBoundInv(s) THEN {} ELSE {"StepBound"})
+          \cup (IF NoLostWake(s) THEN {} ELSE {"NoLostWake"})
 =============================================================================
